@@ -20,6 +20,8 @@ PROP = dict(
              "plain / number-like / bool-like / quoted / bracketed / punctuation (spaces, commas, colons, braces, quotes, $ #) / unicode / empty, lists, "
              "nested maps; types string int int64 uint float64 bool any *string *int []string []int map[string]any map[string]string nested structs), "
              "20% weakly typed or incompatible pairs, 5% absent key, 5% re-expansion strings; 1 in 8 cases writes a literal in the value tag; "
+             "about 25% of the cases pre-fill the bound fields with non-zero defaults (the configured value must replace them exactly: oracle prefill-merged); "
+             "10% of the holders also carry an optional wire dependency and are started 4 times (oracle start-unstable); "
              "non-trivial = everything except bool->bool; distinct = distinct scenario lines",
         trusted_base=COMMON_TB + ["yaml.v3 + viper (document -> Go value), strconv2.ParseAny/FormatAny, mapstructure weak decoding, fmt %v / strconv.FormatFloat, "
                                   "encoding/json as modelled in Ioc.Value (validated by the correspondence on every run)",
